@@ -232,6 +232,8 @@ type Violation struct {
 	Schedule []string          `json:"schedule,omitempty"`
 	PC       []string          `json:"path_condition,omitempty"`
 	Cond     string            `json:"failed_condition,omitempty"`
+	// Alternates are further executions failing the same assertion under a different schedule.
+	Alternates []*Violation `json:"alternates,omitempty"`
 }
 
 func (r *run) assume(cond *sym.Term) {
